@@ -78,13 +78,13 @@ CHECKS = {
     "C12": dict(
         engine="E5-services",
         technique="Coq proof over functions REGENERATED from /repo/src by a fail-closed Python-ast translator (pure.py) and proved equal to the model + Coq proof (convergence invariant over all histories of poll answers / register / unregister / task executions in any order of the two running tasks; reported-hash invariant; no-change and failed-poll frame laws; captured-config discipline refuted by witness) + in-Coq correspondence with the real service under a controlled task handler + physical two-worker runs",
-        text="7 Coq theorems over ConfigSvc.v: in every reachable state with no update task pending the handler's installed list "
+        text="10 Coq theorems over ConfigSvc.v: in every reachable state with no update task pending the handler's installed list "
              "is the latest polled configuration followed by the live registrations; the hash reported is that of the last "
              "update answer; a no-change answer changes only the timestamp; a failed or malformed poll changes nothing; tasks "
              "installing the configuration captured at submit are refuted by a checked witness (update, update, second task "
              "first). Tied to the code by generated histories through the real LongPoll.poll (scripted stub), "
              "TracepointConfigService, ConfigService and TriggerHandler with a task handler that lets the harness pick which "
-             "of the two running tasks installs first; installed list after every step compared inside Coq. Tie T2: update_no_change, update_new_config, __trigger_update, update_listeners and the handler's listener are translated from source on every run (coq/gen/PService.v) and proved to be the model's steps; C12_the_code_installs_the_current_state is stated over the translated code (what a task installs does not depend on what it captured).",
+             "of the two running tasks installs first; installed list after every step compared inside Coq. Tie T2: update_no_change, update_new_config, __trigger_update, update_listeners and the handler's listener are translated from source on every run (coq/gen/PService.v) and proved to be the model's steps; C12_the_code_installs_the_current_state is stated over the translated code (what a task installs does not depend on what it captured). LongPoll.poll itself is translated too (coq/gen/PPoll.v, tie TiePoll.v): C12_the_code_poll_is_a_model_step (for every service state, clock and service behaviour one poll is exactly PollNoChange / PollUpdate with the answer's time, hash and tracepoints), C12_the_code_poll_reports_the_current_hash (the request carries the hash currently held; the outcome depends on the service only through the answer to that hash).",
         note="Trusted: Coq kernel+VM; harness; an update task's installation is atomic (the service's lock); pool of two workers; "
              "timer loop continuing after a failing poll is exercised on the real RepeatedTimer, not proved.",
         design="5-C12"),
@@ -97,7 +97,7 @@ CHECKS = {
              "unregister is the identity; service updates keep the registrations; at quiescence installed = service's + "
              "registered; the location-as-handle discipline is refuted by a checked witness. Tied to the code by histories "
              "weighted to register/unregister on shared lines (repeated and never-returned handles) and by the public "
-             "register_tracepoint / unregister objects. Tie T2: add_custom / remove_custom are translated from source on every run (coq/gen/PService.v) and proved to be the model's Register / RegisterRefused / Unregister steps.",
+             "register_tracepoint / unregister objects (watches given out of order and repeated must be installed as given). Tie T2: add_custom / remove_custom are translated from source on every run (coq/gen/PService.v) and proved to be the model's Register / RegisterRefused / Unregister steps.",
         note="Trusted: Coq kernel+VM; harness; uuid4 handles are distinct (modelled as a counter).",
         design="5-C13"),
     "C11": dict(
@@ -133,7 +133,7 @@ CHECKS = {
              "of one definition being one per processor in order; operation = lower-cased type, namespace defaults to 'deep', "
              "name/help/unit passed on; value = the expression's number, else 1 (absent, non-numeric, failing); with no "
              "processor nothing is reported and the stats are unchanged. Tied to the code by generated definition lists x "
-             "0-3 recording processors x 1-3 hits through the real handler; calls in order and fire count compared in Coq. Tie T2: MetricActionContext.can_trigger and _convert_type are translated from source on every run (coq/gen/PMetrics.v): C17_the_code_needs_a_processor, C17_the_code_operation_is_the_model.",
+             "0-3 recording processors x 1-3 hits through the real handler; calls in order and fire count compared in Coq; processors loaded by the agent's own load_plugins with every subset switched off by PLUGIN_<NAME> (a switched-off processor receives nothing; none active: nothing reported, no budget used). Tie T2: MetricActionContext.can_trigger and _convert_type are translated from source on every run (coq/gen/PMetrics.v): C17_the_code_needs_a_processor, C17_the_code_operation_is_the_model.",
         note="Trusted: Coq kernel+VM; harness; numbers compared by printed text; processors that fail are C20.",
         design="5-C17"),
     "C03": dict(
@@ -298,9 +298,9 @@ def main():
                  serves_properties=["C01", "C14", "C20"], kind_free_text="exception-flow language with verified may-escape / return-path / loop analyses; skeletons regenerated from the Python source by a fail-closed ast translator on every run; fault injection"),
             dict(name="E6-wire", path="coq/theories/Wire.v coq/theories/WireProofs.v coq/gen/WireMap.v harness/translate/wiremap.py harness/props/c08.py",
                  serves_properties=["C08"], kind_free_text="records as finite maps, table-driven conversion, losslessness law; tables regenerated from the converter functions; serialise/parse oracle"),
-            dict(name="E7-translated-functions", path="harness/translate/pure.py coq/theories/PureSupport.v coq/gen/PLimits.v coq/gen/PMatch.v coq/gen/PCollect.v coq/gen/PChildren.v coq/gen/PRender.v coq/gen/PSelect.v coq/gen/PEvent.v coq/gen/PTruth.v coq/gen/PResolve.v coq/gen/PGate.v coq/gen/PTable.v coq/gen/PFrames.v coq/gen/PStore.v coq/gen/PMerge.v coq/gen/PLine.v coq/gen/PService.v coq/gen/PRegistry.v coq/gen/PCallbacks.v coq/gen/PMetrics.v coq/gen/PHooks.v coq/gen/PSpans.v coq/theories/TieSpans.v coq/theories/TieLimits.v coq/theories/TieMatch.v coq/theories/TieCollect.v coq/theories/TieTraverse.v coq/theories/TieRoot.v coq/theories/TieNames.v coq/theories/TieChildren.v coq/theories/TieRender.v coq/theories/TieSelect.v coq/theories/TieEvent.v coq/theories/TieEventHit.v coq/theories/TieTruth.v coq/theories/TieResolve.v coq/theories/TieGate.v coq/theories/TieHit.v coq/theories/TieTable.v coq/theories/TieFrames.v coq/theories/TieStore.v coq/theories/TieMerge.v coq/theories/TieLine.v coq/theories/TieService.v coq/theories/TieRegistry.v coq/theories/TieCallbacks.v coq/theories/TieMetrics.v coq/theories/TieHooks.v tools/mutate_pure.py",
+            dict(name="E7-translated-functions", path="harness/translate/pure.py coq/theories/PureSupport.v coq/gen/PLimits.v coq/gen/PMatch.v coq/gen/PCollect.v coq/gen/PChildren.v coq/gen/PRender.v coq/gen/PSelect.v coq/gen/PEvent.v coq/gen/PTruth.v coq/gen/PResolve.v coq/gen/PGate.v coq/gen/PTable.v coq/gen/PFrames.v coq/gen/PStore.v coq/gen/PMerge.v coq/gen/PLine.v coq/gen/PService.v coq/gen/PRegistry.v coq/gen/PPoll.v coq/theories/TiePoll.v coq/gen/PCallbacks.v coq/gen/PMetrics.v coq/gen/PHooks.v coq/gen/PSpans.v coq/theories/TieSpans.v coq/theories/TieLimits.v coq/theories/TieMatch.v coq/theories/TieCollect.v coq/theories/TieTraverse.v coq/theories/TieRoot.v coq/theories/TieNames.v coq/theories/TieChildren.v coq/theories/TieRender.v coq/theories/TieSelect.v coq/theories/TieEvent.v coq/theories/TieEventHit.v coq/theories/TieTruth.v coq/theories/TieResolve.v coq/theories/TieGate.v coq/theories/TieHit.v coq/theories/TieTable.v coq/theories/TieFrames.v coq/theories/TieStore.v coq/theories/TieMerge.v coq/theories/TieLine.v coq/theories/TieService.v coq/theories/TieRegistry.v coq/theories/TieCallbacks.v coq/theories/TieMetrics.v coq/theories/TieHooks.v tools/mutate_pure.py",
                  serves_properties=["C02", "C03", "C04", "C05", "C07", "C08", "C10", "C11", "C12", "C13", "C14", "C15", "C17", "C18", "C19", "C20"],
-                 kind_free_text="60 functions of the agent translated statement by statement into Gallina on every run by a fail-closed Python-ast translator and proved equal to the functions of the hand-written models; property theorems stated over the translated code"),
+                 kind_free_text="61 functions of the agent translated statement by statement into Gallina on every run by a fail-closed Python-ast translator and proved equal to the functions of the hand-written models; property theorems stated over the translated code"),
             dict(name="E4-stores", path="coq/theories/Attrs.v coq/theories/AttrsProofs.v coq/theories/Config.v harness/props/c18.py harness/props/c19.py",
                  serves_properties=["C18", "C19"], kind_free_text="Gallina models of the attribute store, resources, configuration resolution; proofs; in-Coq correspondence"),
         ],
